@@ -566,6 +566,8 @@ func optOutputs(amount massutil.Amount, utxos []*txmgr.Credit) ([]*txmgr.Credit,
 }
 
 func (w *WalletManager) SignHash(pub *btcec.PublicKey, hash, password []byte) (*btcec.Signature, error) {
+	// like signWitnessTx: the unlock lasts for this signing call only
+	defer w.ksmgr.ClearPrivKey()
 	return w.ksmgr.SignHash(pub, hash, password)
 }
 
